@@ -495,6 +495,7 @@ func gen(tier string, seed uint64) []runner.Scenario {
 		n = 8000
 	}
 	var out []runner.Scenario
+	out = append(out, runner.Scenario{ID: "generated-client/all", Run: func() runner.Result { return generatedClientAll("generated-client/all") }})
 	for i := 0; i < n; i++ {
 		i := i
 		id := fmt.Sprintf("calls/%d", i)
@@ -507,7 +508,7 @@ func main() {
 	runner.Main(runner.Check{
 		Property: "C10",
 		Level:    "exploration",
-		Rule:     "one case = 2-5 consecutive calls on one connection against a hand-written four-shape service registered with the real drpcmux; each call draws: shape, outcome (handler error with text in {empty, ASCII, 64 KiB, random bytes, NUL/invalid UTF-8, non-ASCII/CRLF} x code in {none,1,2,12,2^32,2^63,2^64-1} attached by WithCode or a Code() method x wrapping depth in {0,1,2,5,20,50} through Cause/Unwrap chains of six wrapper species (value and pointer types, comparable and not, mixed or one species throughout); success; unknown rpc; undecodable request), k in 0..3 responses before the outcome, request size in {0,10,5000,70000,~1 MiB}; unary calls are parked between their invoke and message writes until the server's answer has arrived in half of the cases; seeded configuration cell. Followed by a probe. Non-trivial: all. Distinct: by configuration and call list.",
+		Rule:     "one case = 2-5 consecutive calls on one connection against a hand-written four-shape service registered with the real drpcmux; each call draws: shape, outcome (handler error with text in {empty, ASCII, 64 KiB, random bytes, NUL/invalid UTF-8, non-ASCII/CRLF} x code in {none,1,2,12,2^32,2^63,2^64-1} attached by WithCode or a Code() method x wrapping depth in {0,1,2,5,20,50} through Cause/Unwrap chains of six wrapper species (value and pointer types, comparable and not, mixed or one species throughout); success; unknown rpc; undecodable request), k in 0..3 responses before the outcome, request size in {0,10,5000,70000,~1 MiB}; unary calls are parked between their invoke and message writes until the server's answer has arrived in half of the cases; seeded configuration cell. Followed by a probe. Plus one case that runs the same clauses through the code protoc-gen-go-drpc (built from the repository) generates for a four-shape service: unknown rpc, a handler failing at once, a request that cannot be marshalled, with small and 100 KB requests, each followed by a probe on the same connection. Non-trivial: all. Distinct: by configuration and call list.",
 		Assumptions: []string{
 			"expected client text is the text of the error the handler returned (errs.Wrap without a class and the wrappers used keep the text); expected code is the code the scenario attached, read back on the client both by drpcerr.Code and by an independent walk of the Unwrap/Cause chain",
 			"wrapping depth stays below the library's documented 100-step unwrap bound",
